@@ -64,6 +64,7 @@ type Knobs struct {
 	PInfoShare  int // an Info struct is one of two shared slots instead of a fresh struct
 	PNilOptArg  int // an op gets a nil / empty argument to an option constructor (FillXInfo(nil), WithXCallback(nil), As())
 	PCallback   int
+	PCBPanic    int // a callback panics on its first call
 	PDefer      int
 	PRecover    int
 	PHole       int // param for a key nobody provides (universe pick)
@@ -747,6 +748,7 @@ func (g *gen) genProvide(s int) Op {
 	}
 	if g.pct(g.k.PCallback, "cb") {
 		o.CB = true
+		o.CBPanic = g.pct(g.k.PCBPanic, "cbpanic")
 	}
 	op := Op{K: OpProvide, S: s, F: f}
 	if g.pct(g.k.PNilOptArg, "niloptarg") {
@@ -895,6 +897,7 @@ func (g *gen) genDecorate(s int) (Op, bool) {
 	}
 	if g.pct(g.k.PCallback, "cb") {
 		o.CB = true
+		o.CBPanic = g.pct(g.k.PCBPanic, "cbpanic")
 	}
 	if g.pct(g.k.PNilOptArg, "niloptarg") {
 		if g.pct(50, "nilopt") {
